@@ -29,6 +29,8 @@ type Net struct {
 	// Fault decides the fate of one publication towards one subscriber:
 	// 0 = delivered once, 1 = lost, 2 = delivered twice.  nil = always delivered.
 	Fault func(from, to peer.ID, topic string) int
+	// ConnectGate, if set, makes every direct-channel Connect wait until it is closed.
+	ConnectGate chan struct{}
 	// Log records every message put on the wire (publications per topic and
 	// direct sends), for isolation oracles.
 	Log []NetMsg
@@ -339,6 +341,19 @@ var ErrUnreachable = errors.New("vstubodb: peer unreachable")
 
 func (d *netDirect) Connect(ctx context.Context, p peer.ID) error {
 	n := d.nd.net
+	// a connection attempt may take time (as the bundled pairwise channel, which
+	// polls until the other side shows up): it waits for the harness's gate, or
+	// ends with the caller's context
+	n.mu.Lock()
+	gate := n.ConnectGate
+	n.mu.Unlock()
+	if gate != nil {
+		select {
+		case <-gate:
+		case <-ctx.Done():
+			return ctx.Err()
+		}
+	}
 	n.mu.Lock()
 	defer n.mu.Unlock()
 	o := n.find(p)
